@@ -6,17 +6,22 @@
 (* when a process ended -- killed before its N-th file-system/socket call  *)
 (* or not.  One case = one kill point: a first process (killed or not) and *)
 (* a fresh process restarted on the same directory and host.               *)
-(* Rows: {"e":"case","id"} {"e":"spawn"} {"e":"end"}                        *)
+(* Rows: {"e":"case","id","final0","latched0","damaged"} {"e":"spawn"}      *)
+(*  {"e":"end"}                                                             *)
 (*  {"e":"fs","op":create_tmp|write_tmp|close_tmp|rename|create_final|     *)
-(*              open_final|read_final, "g"}     calls on <keys>/<guid>.*    *)
-(*  {"e":"net","op":status|acquire|attest|signed,"g"}  requests sent        *)
+(*     open_final|read_final|unlink_final, "g"}  calls on <keys>/<guid>.*   *)
+(*  {"e":"net","op":status|acquire|attest|signed,"g","latches"} requests    *)
+(*     sent; latches: the host committed the latch on that attestation      *)
+(*     (its own record), whatever it then answered                          *)
 (*  {"e":"exit","killed","restart","final","tmp","latched","damaged",       *)
 (*   "latched0","good0","acquires","signedGuid","signedOk"}                 *)
 (* Clauses (names printed in <<"VERDICT", json>> when a case ends):         *)
 (*  AttestOnlyAfterStoreAndReadBack, TmpThenRename (a final name is only    *)
 (*  ever produced by renaming a written and closed temporary file),         *)
 (*  LatchedIsRecoverable, NoCorruptFinalName (C08_*On of KeyKeeper.tla on   *)
-(*  the real directory), RestartUsesLocal (a restarted process whose host   *)
+(*  the real directory when a process ends; LatchedIsRecoverable also after *)
+(*  every system call, on the final names as the calls leave them and the   *)
+(*  host's record of its latch), RestartUsesLocal (a restarted process whose host   *)
 (*  latch has a good local file asks for no new key and signs with it),     *)
 (*  RestartAuthenticates (a restarted process that ran to its end had a     *)
 (*  signed request accepted under the key the host then regards as latched).*)
@@ -25,8 +30,11 @@ EXTENDS KeyKeeper, Json, IOUtils
 FModeOf(r) == "audit"
 
 Rec == ndJsonDeserialize(IOEnv.TRACE)
-VARIABLES l, st, viol, caseid, nev
-tvars == <<vars, l, st, viol, caseid, nev>>
+VARIABLES l, st, viol, caseid, nev,
+          ff,    \* the final names as the system calls leave them (rename / unlink / create), from the directory at the start
+          lat,   \* the key the host regards as attested (the host's own record of each attestation request it served)
+          dmg    \* keys whose file was damaged from outside before the case started
+tvars == <<vars, l, st, viol, caseid, nev, ff, lat, dmg>>
 
 SetOf(seq) == {seq[k] : k \in 1..Len(seq)}
 Fresh == [g \in Guids |-> "none"]
@@ -40,8 +48,18 @@ FsStep(op, g) ==
     [] op = "open_final" -> [st EXCEPT ![g] = IF @ = "stored" THEN "reading" ELSE @]
     [] op = "read_final" -> [st EXCEPT ![g] = IF @ = "reading" THEN "readback" ELSE @]
     [] OTHER -> st
+FfStep(op, g) ==
+  CASE op = "rename"       -> [ff EXCEPT ![g] = "key"]
+    [] op = "unlink_final" -> [ff EXCEPT ![g] = "none"]
+    [] op = "create_final" -> [ff EXCEPT ![g] = "partial"]
+    [] OTHER -> ff
+\* the clause at every instant between two system calls, not only when a process ends
+NowBad(f, la, d) == IF ~C08_LatchedIsRecoverableOn([final |-> f], la, d) THEN {"LatchedIsRecoverable"} ELSE {}
 FsBad(op, g) ==
-  (IF op = "create_final" \/ (op = "rename" /\ st[g] # "tmp_closed") THEN {"TmpThenRename"} ELSE {})
+  (IF \/ op = "create_final" \/ op = "write_final"
+      \/ (op = "rename" /\ st[g] # "tmp_closed")
+      \/ (op = "write_tmp" /\ st[g] \in {"stored", "reading", "readback"})    \* written after it got its final name
+   THEN {"TmpThenRename"} ELSE {})
 
 ExitBad(r) ==
   LET f == [final |-> r.final]
@@ -55,24 +73,30 @@ ExitBad(r) ==
 
 TInit ==
   /\ host = 0 /\ fs = 0 /\ pc = "-" /\ loc = 0 /\ mem = 0 /\ policy = 0 /\ act = 0 /\ gh = 0
-  /\ l = 1 /\ st = Fresh /\ viol = {} /\ caseid = 0 /\ nev = 0
+  /\ l = 1 /\ st = Fresh /\ viol = {} /\ caseid = 0 /\ nev = 0 /\ ff = Fresh /\ lat = "none" /\ dmg = {}
 
 Row == Rec[l]
 Same == UNCHANGED vars
-TCase  == /\ Row.e = "case" /\ caseid' = Row.id /\ viol' = {} /\ st' = Fresh /\ nev' = 0 /\ Same
-TSpawn == /\ Row.e = "spawn" /\ st' = Fresh /\ UNCHANGED <<viol, caseid, nev>> /\ Same
+TCase  == /\ Row.e = "case" /\ caseid' = Row.id /\ viol' = {} /\ st' = Fresh /\ nev' = 0
+          /\ ff' = [g \in Guids |-> Row.final0[g]] /\ lat' = Row.latched0 /\ dmg' = SetOf(Row.damaged) /\ Same
+TSpawn == /\ Row.e = "spawn" /\ st' = Fresh /\ UNCHANGED <<viol, caseid, nev, ff, lat, dmg>> /\ Same
 TFs    == /\ Row.e = "fs"
-          /\ IF Known(Row.g) THEN st' = FsStep(Row.op, Row.g) /\ viol' = viol \cup FsBad(Row.op, Row.g)
-                             ELSE UNCHANGED <<st, viol>>
-          /\ nev' = nev + 1 /\ UNCHANGED caseid /\ Same
+          /\ IF Known(Row.g)
+             THEN /\ st' = FsStep(Row.op, Row.g) /\ ff' = FfStep(Row.op, Row.g)
+                  /\ dmg' = IF Row.op = "rename" THEN dmg \ {Row.g} ELSE dmg
+                  /\ viol' = viol \cup FsBad(Row.op, Row.g) \cup NowBad(ff', lat, dmg')
+             ELSE UNCHANGED <<st, viol, ff, dmg>>
+          /\ nev' = nev + 1 /\ UNCHANGED <<caseid, lat>> /\ Same
 TNet   == /\ Row.e = "net"
+          /\ lat' = IF Row.op = "attest" /\ Row.latches THEN Row.g ELSE lat
           /\ viol' = viol \cup (IF Row.op = "attest" /\ ~(Known(Row.g) /\ st[Row.g] = "readback")
                                 THEN {"AttestOnlyAfterStoreAndReadBack"} ELSE {})
-          /\ nev' = nev + 1 /\ UNCHANGED <<st, caseid>> /\ Same
-TExit  == /\ Row.e = "exit" /\ viol' = viol \cup ExitBad(Row) /\ UNCHANGED <<st, caseid, nev>> /\ Same
+                           \cup NowBad(ff, lat', dmg)
+          /\ nev' = nev + 1 /\ UNCHANGED <<st, caseid, ff, dmg>> /\ Same
+TExit  == /\ Row.e = "exit" /\ viol' = viol \cup ExitBad(Row) /\ UNCHANGED <<st, caseid, nev, ff, lat, dmg>> /\ Same
 TEnd   == /\ Row.e = "end"
           /\ PrintT(<<"VERDICT", ToJson([case |-> caseid, viol |-> viol, events |-> nev])>>)
-          /\ UNCHANGED <<st, viol, caseid, nev>> /\ Same
+          /\ UNCHANGED <<st, viol, caseid, nev, ff, lat, dmg>> /\ Same
 
 TNext == l <= Len(Rec) /\ l' = l + 1 /\ (TCase \/ TSpawn \/ TFs \/ TNet \/ TExit \/ TEnd)
 TSpec == TInit /\ [][TNext]_tvars
